@@ -78,13 +78,16 @@ FillCandle(p, tf) == MkCandle(p.ts + tf, p.c, p.c, p.c, p.c, Zero)
 
 InsertAt(s, i, x) == SubSeq(s, 1, i - 1) \o <<x>> \o SubSeq(s, i, Len(s))
 
+MaxFill == 400
 \* index is the 1-based position of the candle compared with its predecessor
 RECURSIVE FillLoop(_, _, _)
 FillLoop(cs, i, tf) ==
   LET p   == cs[i - 1]
       cs2 == IF p.ts # NoTs /\ cs[i].ts # p.ts + tf
              THEN InsertAt(cs, i, FillCandle(p, tf)) ELSE cs
-  IN IF i + 1 > Len(cs2) THEN cs2 ELSE FillLoop(cs2, i + 1, tf)
+  \* (a list beyond MaxFill candles is not walked further: the recursion would outgrow TLC's
+  \*  stack; recorded scenarios stay far below it, so reaching it is itself a mismatch)
+  IN IF i + 1 > Len(cs2) \/ Len(cs2) > MaxFill THEN cs2 ELSE FillLoop(cs2, i + 1, tf)
 
 FillWalk(cs, tf) == IF Len(cs) < 2 THEN cs ELSE FillLoop(cs, 2, tf)
 
@@ -198,7 +201,7 @@ RECURSIVE FillDefFrom(_, _, _)
 FillDefFrom(out, rest, tf) ==
   IF rest = <<>> THEN out
   ELSE LET p == Last(out)
-       IN IF Head(rest).ts > p.ts + tf
+       IN IF Head(rest).ts > p.ts + tf /\ Len(out) <= MaxFill
           THEN FillDefFrom(Append(out, Core(FillCandle(p, tf))), rest, tf)
           ELSE FillDefFrom(Append(out, Head(rest)), Tail(rest), tf)
 
